@@ -220,7 +220,10 @@ def r20_6(ctx):
                 srcs.append((t["dest"][0], t))
     ctx.floor("R20.6", "fallible calls on the in-place parser", len(srcs), 1)
     direct = [x for x in srcs if x[0] == "direct"]
-    bad, tainted = error_taint(f, [x[0] for x in srcs if x[0] != "direct"], sanitizers=("rebase",))
+    def closure_calls(fid, names):
+        g = prog.fns.get(fid)
+        return g is not None and any(callee_is(tt, *names) for bb, tt in g.calls())
+    bad, tainted = error_taint(f, [x[0] for x in srcs if x[0] != "direct"], sanitizers=("rebase",), closure_calls=closure_calls)
     ok = not bad and not direct
     ctx.ob("R20.6", "parse_with_padding:errors-rebased", ok, f.loc((bad[0][1] if bad else srcs[0][1]).get("ln")),
            "an error of the in-place parser (rendered over its private, unescaped copy) passes Error::rebase before it is returned" if ok else
@@ -228,6 +231,22 @@ def r20_6(ctx):
     # rebase is given the caller's json
     rb = [(b, t) for b, t in f.calls() if callee_is(t, "rebase")]
     okj = bool(rb) and all(op_local(t["args"][1]) is not None and ("param", 2) in backward_slice(f, [op_local(t["args"][1])])[1] for b, t in rb)
+    if not rb:
+        # rebase inside a closure handed to map_err: its text argument comes from the closure's captures, and the closure
+        # captures the json parameter
+        for g in prog.with_closures(f):
+            if g.id == f.id:
+                continue
+            grb = [(b, t) for b, t in g.calls() if callee_is(t, "rebase")]
+            if grb and all(any(lf[0] == "param" and lf[1] == 1 for lf in backward_slice(g, [op_local(t["args"][1])])[1]) for b, t in grb if op_local(t["args"][1]) is not None):
+                mk = [(b, i, st) for b, i, st in f.assigns() if st["rv"]["k"] == "agg" and st["rv"].get("ak") == "closure" or (st["rv"]["k"] == "agg" and g.id in str(st["rv"]))]
+                caps = set()
+                for b, i, st in mk:
+                    for o in st["rv"].get("f", []):
+                        lo = op_local(o)
+                        if lo is not None:
+                            caps |= {lf[1] for lf in backward_slice(f, [lo])[1] if lf[0] == "param"}
+                okj = 2 in caps or not mk
     ctx.ob("R20.6", "parse_with_padding:rebase-over-input", okj, f.loc(), "rebase is given the caller's json")
     # rebase itself: index == len is a position inside the input (EOF errors); only index > len is left alone
     r = prog.find("Error::rebase")
